@@ -44,14 +44,13 @@ impl EventGen for SvgElement {
             "defaults" => DefaultsElement(self.clone()).generate_events(context),
             "for" => ForElement(self.clone()).generate_events(context),
             "g" | "symbol" => GroupElement(self.clone()).generate_events(context),
-            _ => {
-                if let Some((start, end)) = self.event_range {
-                    if start != end {
-                        return Container(self.clone()).generate_events(context);
-                    }
+            _ => match self.event_range {
+                // Note: must not return early here, or dec_depth() below is skipped
+                Some((start, end)) if start != end => {
+                    Container(self.clone()).generate_events(context)
                 }
-                OtherElement(self.clone()).generate_events(context)
-            }
+                _ => OtherElement(self.clone()).generate_events(context),
+            },
         };
         // Ideally would have a single 'if bbox, set prev_element' here,
         // but is used for attribute lookup as well as bbox, so need the
